@@ -254,7 +254,7 @@ func (g *c02Gen) next(prefix string) *c02Op {
 		"assoc-in-empty", "assoc-in-empty2", "update-in-empty", "unbase64", "base64-roundtrip",
 		"def-fn-with-meta", "json-decode-proto-map", "json-decode-proto-vec", "merge-small-big", "fn-meta-shared",
 		"first-nested", "nth-nested", "get-in-nested", "get-nested", "vals", "keys", "apply-vector", "apply-list", "apply-hash-map",
-		"json-decode-binary", "error-string-of", "str-of-error", "binary-of-str"}
+		"json-decode-binary", "error-string-of", "str-of-error", "binary-of-str", "let-two-futures", "let-three-futures"}
 	weights := []int{8, 3, 2, 6, 2, 5, 2, 2, 2, 2, 1, 1, 1, 3, 3, 2, 1, 1, 1, 1, 1, 1, 2, 1, 1, 2, 3, 2, 1, 4, 3, 2, 2, 2, 2,
 		3, 2, 2, 3, 2, 2, 2, 2,
 		2, 1, 1,
@@ -264,7 +264,7 @@ func (g *c02Gen) next(prefix string) *c02Op {
 		2, 1, 1, 2, 1,
 		2, 2, 1, 2, 1,
 		2, 2, 2, 1, 1, 1, 2, 1, 1,
-		2, 2, 1, 1}
+		2, 2, 1, 1, 3, 2}
 	kind := kinds[g.tp.Weighted(LaneWork, weights)]
 	var src, typ string
 	expectParent := ""
@@ -274,6 +274,13 @@ func (g *c02Gen) next(prefix string) *c02Op {
 	lst := func() *c02Val { v := g.pick("list"); parents = append(parents, v); return v }
 	mp := func() *c02Val { v := g.pick("map"); parents = append(parents, v); return v }
 	switch kind {
+	case "let-two-futures":
+		// two threads started in one local scope read different names of it at the same time
+		a, b := seq(), seq()
+		src, typ = "(let [va "+a.Name+" vb "+b.Name+" n1 1 n2 2] (let [f1 (future (do (count va) (count va) (conj va n1))) f2 (future (do (count vb) (count vb) (first vb) n2))] (do (count vb) (list (count @f1) @f2))))", "other"
+	case "let-three-futures":
+		a := vec()
+		src, typ = "(let [va "+a.Name+" k1 "+k+" k2 :b"+k+" k3 \"c"+k+"\"] (map deref (list (future (conj va k1)) (future (conj va k2)) (future (do k3 k3 (conj va k3))))))", "other"
 	case "json-decode-binary":
 		// the document is a binary value (it may hold comments, which JSON does not have: then decoding fails)
 		v := g.pick("bin")
